@@ -1165,3 +1165,156 @@ def gen_wrapper(lib_dir: str, header: str) -> str:
     out += "  wrapperMain acc d args body []\n\n"
     out += "end Dltype.Gen\n"
     return out
+
+
+# =====================================================================================================================
+# the class entry points  ->  Generated/Classes.lean
+#   dltyped_namedtuple.validated_new, dltyped_dataclass.new_init, TensorTypeBase.__get_pydantic_core_schema__.validate_tensor
+# =====================================================================================================================
+
+CLASSES_HEADER = """/-- loop skeleton (fixed text): the fields in declaration order; each iteration queues entries -/
+def fieldLoop (step : Name → Outcome (List Entry)) : List (Name × HintAnns) → Outcome (List Entry)
+  | [] => .ok []
+  | (name, _) :: rest =>
+    match step name with
+    | .ok es =>
+      match fieldLoop step rest with
+      | .ok es' => .ok (es ++ es')
+      | r => r
+    | r => r
+
+/-- `dict.get(name)` on the resolved field hints -/
+def lookupField : List (Name × HintAnns) → Name → Option HintAnns
+  | [], _ => none
+  | (k, h) :: rest, n => if k = n then some h else lookupField rest n
+
+"""
+
+
+def _inner_function(mod, outer: str, inner: str) -> ast.FunctionDef:
+    for n in ast.walk(mod):
+        if isinstance(n, ast.FunctionDef) and n.name == outer:
+            for m in ast.walk(n):
+                if isinstance(m, ast.FunctionDef) and m.name == inner:
+                    return m
+    raise TErr(f"{outer}: inner function `{inner}` not found")
+
+
+def _try_assert(s) -> bool:
+    """try: ctx.assert_context()  except DLTypeError as e: e.set_context(...); raise"""
+    return (isinstance(s, ast.Try) and len(s.body) == 1 and _src(s.body[0]) == "ctx.assert_context()" and len(s.handlers) == 1 and not s.orelse and not s.finalbody
+            and _src(s.handlers[0].type) == "_errors.DLTypeError" and isinstance(s.handlers[0].body[-1], ast.Raise) and s.handlers[0].body[-1].exc is None
+            and all(isinstance(z, ast.Expr) and _src(z.value.func).endswith(".set_context") for z in s.handlers[0].body[:-1]))
+
+
+def gen_classes(lib_dir: str, header: str) -> str:
+    def parse(f):
+        with open(os.path.join(lib_dir, f)) as fh:
+            return ast.parse(fh.read(), filename=f)
+
+    core, ttb = parse("_core.py"), parse("_tensor_type_base.py")
+    ADD = "ctx.add(field_name, _resolve_value(value, annotation), _resolve_types(annotation))"
+
+    # ---- NamedTuple ------------------------------------------------------------------------------------------
+    f = _inner_function(core, "dltyped_namedtuple", "validated_new")
+    b = _strip(f.body)
+    if _src(f.args) != "cls_inner: type[NT], *args: Any, **kwargs: Any":
+        raise TErr(f"validated_new: parameters `{_src(f.args)}`")
+    if not (len(b) == 5 and _src(b[0]) == "instance = original_new(cls_inner, *args, **kwargs)" and _src(b[1]) == "ctx = _dltype_context.DLTypeContext()"
+            and isinstance(b[2], ast.For) and _try_assert(b[3]) and _src(b[4]) == "return instance"):
+        raise TErr("validated_new: expected `instance = original_new(cls_inner, *args, **kwargs)`, a fresh context, the loop over the fields, "
+                   "`try: ctx.assert_context()`, `return instance`; got: " + " ; ".join(_src(s)[:60] for s in b))
+    loop = b[2]
+    if not (_src(loop.target) == "(field_name, annotation)" and _src(loop.iter) == "dltype_fields.items()" and not loop.orelse):
+        raise TErr("validated_new: the loop is not `for field_name, annotation in dltype_fields.items()`")
+    lb = [_src(s) for s in loop.body]
+    if lb != ["field_index = cls._fields.index(field_name)", "value = instance[field_index]", ADD]:
+        raise TErr("validated_new: loop body: " + " ; ".join(lb)[:200])
+    nt_step = "match lookupArg vals field_name with\n  | none => .pyExc .typeError\n  | some value => addHinted field_name value annotation"
+
+    # ---- dataclass -------------------------------------------------------------------------------------------
+    f = _inner_function(core, "dltyped_dataclass", "new_init")
+    b = _strip(f.body)
+    if _src(f.args) != "self: DataclassT, *args: Any, **kwargs: Any":
+        raise TErr(f"new_init: parameters `{_src(f.args)}`")
+    if not (len(b) == 4 and _src(b[0]) == "original_init(self, *args, **kwargs)" and _src(b[1]) == "ctx = _dltype_context.DLTypeContext()" and isinstance(b[2], ast.For) and _try_assert(b[3])):
+        raise TErr("new_init: expected `original_init(self, *args, **kwargs)`, a fresh context, the loop over the fields, `try: ctx.assert_context()`; got: "
+                   + " ; ".join(_src(s)[:60] for s in b))
+    loop = b[2]
+    if not (_src(loop.target) == "field_name" and _src(loop.iter) == "field_hints" and not loop.orelse):
+        raise TErr("new_init: the loop is not `for field_name in field_hints`")
+    lb = loop.body
+    if not (len(lb) == 2 and _src(lb[0]) == "annotation = dltype_hints.get(field_name)" and isinstance(lb[1], ast.If) and _src(lb[1].test) == "annotation is not None" and not lb[1].orelse
+            and [_src(s) for s in lb[1].body] == ["value = getattr(self, field_name, None)", ADD]):
+        raise TErr("new_init: loop body: " + " ; ".join(_src(s) for s in lb)[:200])
+    dc_step = ("match lookupField fields field_name with\n  | none => .ok []\n  | some annotation =>\n    (match lookupArg vals field_name with\n"
+               "    | none => .pyExc .typeError\n    | some value => addHinted field_name value annotation)")
+
+    # ---- pydantic --------------------------------------------------------------------------------------------
+    f = _inner_function(ttb, "__get_pydantic_core_schema__", "validate_tensor")
+    b = [s for s in _strip(f.body) if not (isinstance(s, ast.Assign) and _src(s.targets[0]) == "__tracebackhide__")]
+    want = [
+        "self.check(tensor, info.field_name or 'anonymous')",
+        "if _constants.PYDANTIC_INFO_KEY not in info.data:\n    info.data[_constants.PYDANTIC_INFO_KEY] = _dltype_context.DLTypeContext()",
+        "dl_context = typing.cast('_dltype_context.DLTypeContext', info.data[_constants.PYDANTIC_INFO_KEY])",
+        "dl_context.add(info.field_name or '_unknown_', (tensor,), (self,))",
+        "dl_context.assert_context()",
+        "return tensor",
+    ]
+    got = [_src(s) for s in b]
+    if got != want:
+        k = next((i for i, (x, y) in enumerate(zip(got, want)) if x != y), min(len(got), len(want)))
+        raise TErr(f"validate_tensor: statement {k}: `{(got[k] if k < len(got) else '<missing>')[:120]}` (expected `{want[k] if k < len(want) else '<nothing>'}`)")
+
+    out = header
+    out += "import DltypeModel.Entry\nset_option linter.unusedVariables false\nnamespace Dltype.Gen\nopen Dltype\n\n"
+    out += CLASSES_HEADER
+    out += "/-- one iteration of the field loop of `validated_new` (NamedTuple) -/\n"
+    out += "def ntFieldStep (vals : List (Name × Value)) (fields : List (Name × HintAnns)) (field_name : Name) (annotation : HintAnns) : Outcome (List Entry) :=\n  " + nt_step + "\n\n"
+    out += "/-- one iteration of the field loop of `new_init` (dataclass) -/\n"
+    out += "def dcFieldStep (vals : List (Name × Value)) (fields : List (Name × HintAnns)) (field_name : Name) : Outcome (List Entry) :=\n  " + dc_step + "\n\n"
+    out += """/-- loop skeleton (fixed text): `for field_name, annotation in dltype_fields.items()` -/
+def ntLoop (vals : List (Name × Value)) (fields : List (Name × HintAnns)) : List (Name × HintAnns) → Outcome (List Entry)
+  | [] => .ok []
+  | (name, annotation) :: rest =>
+    match ntFieldStep vals fields name annotation with
+    | .ok es =>
+      match ntLoop vals fields rest with
+      | .ok es' => .ok (es ++ es')
+      | r => r
+    | r => r
+
+/-- `validated_new`: the instance is built by the original `__new__` with the caller's arguments, every hinted field is queued
+    on a fresh context, ONE `assert_context`, the instance is returned -/
+def ntConstruct (acc : Acc) (fields : List (Name × HintAnns)) (vals : List (Name × Value)) : Outcome CState :=
+  match ntLoop vals fields fields with
+  | .ok queue => runEntries acc {} queue
+  | .reject r => .reject r
+  | .pyExc e => .pyExc e
+  | .unmodelled => .unmodelled
+
+/-- `new_init`: the original `__init__` with the caller's arguments, every hinted field queued on a fresh context, ONE
+    `assert_context` -/
+def dcConstruct (acc : Acc) (fields : List (Name × HintAnns)) (vals : List (Name × Value)) : Outcome CState :=
+  match fieldLoop (dcFieldStep vals fields) fields with
+  | .ok queue => runEntries acc {} queue
+  | .reject r => .reject r
+  | .pyExc e => .pyExc e
+  | .unmodelled => .unmodelled
+
+/-- `validate_tensor` (pydantic, one call per annotated field): the standalone check, then the context kept in the validation's
+    data (created when absent), `add`, `assert_context`; the tensor itself is returned -/
+def pydField (acc : Acc) (data : Option CState) (name : Name) (ann : Ann) (t : Tensor) : Outcome CState :=
+  match check acc ann t name with
+  | .error r => .reject r
+  | .ok () =>
+    let st : CState := match data with | some st => st | none => {}
+    match addGo name 0 [some ann] [.tensor t] with
+    | .ok es => runEntries acc st es
+    | .reject r => .reject r
+    | .pyExc e => .pyExc e
+    | .unmodelled => .unmodelled
+
+"""
+    out += "end Dltype.Gen\n"
+    return out
